@@ -153,7 +153,7 @@ MUTANTS += [
     ("c01_clim_pops_period", Q, "        for climate_config_dict in config:\n            c.add(**climate_config_dict)", "        for climate_config_dict in config:\n            period = climate_config_dict.pop(\"period\", None)\n            c.add(period=period, **climate_config_dict)", ["C01"]),
     ("c01_spike_empty_regress", Q, "    if flag_arr.size > 0:\n        flag_arr[0] = QartodFlags.UNKNOWN", "    if True:\n        flag_arr[0] = QartodFlags.UNKNOWN", ["C01"]),
     ("c01_density_single_shape", Q, "        flag_arr[0] = QartodFlags.UNKNOWN\n        return flag_arr\n", "        flag_arr[0] = QartodFlags.UNKNOWN\n        return flag_arr[0]\n", ["C01"]),
-    ("c01_roc_inplace_abs", Q, "        inp = np.ma.masked_invalid(np.array(inp).astype(np.float64))\n\n    # Save original shape\n    original_shape = inp.shape\n    inp = inp.flatten()\n\n    # Start with everything as passing (1)\n    flag_arr = np.ma.ones(inp.size, dtype=\"uint8\")\n\n    # calculate rate of change",
+    ("c01_roc_inplace_abs", Q, "        inp = np.ma.masked_invalid(np.ma.array(inp).astype(np.float64).filled(np.nan))\n\n    # Save original shape\n    original_shape = inp.shape\n    inp = inp.flatten()\n\n    # Start with everything as passing (1)\n    flag_arr = np.ma.ones(inp.size, dtype=\"uint8\")\n\n    # calculate rate of change",
      "        inp = np.ma.masked_invalid(np.asarray(inp, dtype=np.float64), copy=False)\n\n    # Save original shape\n    original_shape = inp.shape\n    inp = inp.ravel()\n    np.abs(inp.data, out=inp.data)\n\n    # Start with everything as passing (1)\n    flag_arr = np.ma.ones(inp.size, dtype=\"uint8\")\n\n    # calculate rate of change", ["C01"]),
 ]
 MUTANTS += [
@@ -222,10 +222,12 @@ MUTANTS += [
 ]
 MUTANTS += [
     ("c15_epoch_as_ms", UT, 'pd.to_datetime(dates, unit="s")', 'pd.to_datetime(dates, unit="ms")', ["C15"]),
-    ("c15_tz_convert_local", UT, "        return dates.tz_localize(None).astype(\"datetime64[ns]\").to_numpy()", "        return dates.tz_convert(\"US/Eastern\").tz_localize(None).astype(\"datetime64[ns]\").to_numpy()", ["C15"]),
+    ("c15_tz_convert_local", UT, "        return dates.tz_convert(None).astype(\"datetime64[ns]\").to_numpy()", "        return dates.tz_convert(\"US/Eastern\").tz_localize(None).astype(\"datetime64[ns]\").to_numpy()", ["C15"]),
+    ("c15_tz_wall_clock_regress", UT, "        return dates.tz_convert(None).astype(\"datetime64[ns]\").to_numpy()", "        return dates.tz_localize(None).astype(\"datetime64[ns]\").to_numpy()", ["C15"]),
     ("c15_tzaware_index_regress", UT, "        dates = getattr(dates, \"dt\", dates)\n", "        dates = dates.dt\n", ["C15"]),
     ("c15_valid_list_regress", A, "    original_shape = np.shape(inp)", "    original_shape = inp.shape", ["C15"]),
-    ("c15_pandas_naive_day_resolution", UT, "        # pandas time objects without a datetime component\n        return dates.to_numpy().astype(\"datetime64[ns]\")", "        # pandas time objects without a datetime component\n        return dates.to_numpy().astype(\"datetime64[m]\").astype(\"datetime64[ns]\")", ["C15"]),
+    ("c15_pandas_naive_day_resolution", UT, "            # pandas time objects without a timezone\n            return dates.to_numpy().astype(\"datetime64[ns]\")", "            # pandas time objects without a timezone\n            return dates.to_numpy().astype(\"datetime64[m]\").astype(\"datetime64[ns]\")", ["C15"]),
+    ("c15_epoch_series_regress", UT, "        if getattr(dates.dtype, \"kind\", None) == \"M\":\n", "        if True:\n", ["C15"]),
     ("c15_density_z_mask_dropped", Q, "        zinp = np.ma.masked_invalid(np.ma.array(zinp).astype(np.float64).filled(np.nan))\n\n    # Make sure both inputs are the same size.", "        zinp = np.ma.masked_invalid(np.array(zinp).astype(np.float64))\n\n    # Make sure both inputs are the same size.", ["C15"]),
 ]
 CF = "ioos_qc/config.py"
